@@ -334,7 +334,7 @@ func (pg *program) generatePackage(pkgInfo *loader.PackageInfo) error {
 		pkgInfo = thisprogram.Package(path)
 	}
 
-	if len(undefined) > 0 && !generated {
+	if len(undefined) > 0 {
 		return fmt.Errorf("cannot generate: %s", undefined)
 	}
 	return nil
